@@ -168,6 +168,69 @@ func registerStatic(e *Engine) {
 		}
 		panic(engErr("no call of %s in app.NewApp", want))
 	}
+	// StaticCallArgFields(fn, calleeSubstr): for the first call in fn whose static callee name
+	// contains calleeSubstr, the struct field name each argument is read from ("" if it is not a
+	// plain field read).
+	in[rtwPkgPath+".StaticCallArgFields"] = func(p *Path, a []Value) Value {
+		fn := p.eng.findFuncByName(cStr(a[0], "function name"))
+		sub := cStr(a[1], "callee substring")
+		if fn == nil {
+			panic(engErr("function %s not found", cStr(a[0], "function name")))
+		}
+		p.hr.noteFunc(fn)
+		for _, b := range orderedBlocks(fn) {
+			for _, ins := range b.Instrs {
+				c, ok := ins.(*ssa.Call)
+				if !ok {
+					continue
+				}
+				sc := c.Call.StaticCallee()
+				if sc == nil || !strings.Contains(sc.String(), sub) {
+					continue
+				}
+				var out []Value
+				for _, arg := range c.Call.Args {
+					out = append(out, VStr{StrC(fieldSourceName(arg))})
+				}
+				return VSlice{Obj: p.newObj(&VArray{E: out}, "argfields"), Len: len(out), Cap: len(out)}
+			}
+		}
+		return VSlice{Nil: true}
+	}
+	// StaticStructInit(fn, typeSubstr): "Field=Source" for every store into a field of a local
+	// struct whose type name contains typeSubstr, where Source is the field name the stored value
+	// is read from ("" when it is not a plain field read).
+	in[rtwPkgPath+".StaticStructInit"] = func(p *Path, a []Value) Value {
+		fn := p.eng.findFuncByName(cStr(a[0], "function name"))
+		sub := cStr(a[1], "type substring")
+		if fn == nil {
+			panic(engErr("function %s not found", cStr(a[0], "function name")))
+		}
+		p.hr.noteFunc(fn)
+		var out []Value
+		for _, b := range orderedBlocks(fn) {
+			for _, ins := range b.Instrs {
+				st, ok := ins.(*ssa.Store)
+				if !ok {
+					continue
+				}
+				fa, ok := st.Addr.(*ssa.FieldAddr)
+				if !ok {
+					continue
+				}
+				pt, ok := fa.X.Type().Underlying().(*types.Pointer)
+				if !ok || !strings.Contains(pt.Elem().String(), sub) {
+					continue
+				}
+				stt, ok := pt.Elem().Underlying().(*types.Struct)
+				if !ok {
+					continue
+				}
+				out = append(out, VStr{StrC(stt.Field(fa.Field).Name() + "=" + fieldSourceName(st.Val))})
+			}
+		}
+		return VSlice{Obj: p.newObj(&VArray{E: out}, "structinit"), Len: len(out), Cap: len(out)}
+	}
 	in[rtwPkgPath+".StaticTrace"] = func(p *Path, a []Value) Value {
 		name := cStr(a[0], "function name")
 		fn := p.eng.findFuncByName(name)
@@ -194,4 +257,36 @@ func registerStatic(e *Engine) {
 		}
 		return VSlice{Obj: p.newObj(&VArray{E: out}, "statictrace"), Len: len(out), Cap: len(out)}
 	}
+}
+
+// fieldSourceName: the name of the struct field an SSA value is read from, looking through
+// interface conversions, loads and address-of; "" if the value is not a plain field read.
+func fieldSourceName(v ssa.Value) string {
+	for i := 0; i < 8; i++ {
+		switch x := v.(type) {
+		case *ssa.MakeInterface:
+			v = x.X
+		case *ssa.ChangeInterface:
+			v = x.X
+		case *ssa.ChangeType:
+			v = x.X
+		case *ssa.UnOp:
+			v = x.X
+		case *ssa.Field:
+			if st, ok := x.X.Type().Underlying().(*types.Struct); ok {
+				return st.Field(x.Field).Name()
+			}
+			return ""
+		case *ssa.FieldAddr:
+			if pt, ok := x.X.Type().Underlying().(*types.Pointer); ok {
+				if st, ok := pt.Elem().Underlying().(*types.Struct); ok {
+					return st.Field(x.Field).Name()
+				}
+			}
+			return ""
+		default:
+			return ""
+		}
+	}
+	return ""
 }
